@@ -1,4 +1,435 @@
 import OtelVerif.Model.C15
-/-! C15 property theorems (stub) -/
+/-!
+# C15 — OTLP exporter → OTLP receiver preserves data and the meaning of failures
+
+Property theorems only. `OtlpTables.*` is regenerated from the `switch` statements of the receiver and the two
+exporters on every run, so every statement below is re-checked against what the code says now. Statements
+range over **all** numeric codes / statuses / delays (no enumeration bound): finite tables are lifted to all of
+`Nat` through the explicit default branches.
+-/
 namespace OtelVerif.C15
+open OtelVerif.Gen
+
+/-! ## the regenerated tables are the specification's tables, for every number -/
+
+/-- otlphttpexporter `isRetryableStatusCode` = the spec's retryable response codes {429, 502, 503, 504}, for every status -/
+theorem C15_http_table_total (n : Nat) : OtlpTables.httpRetryable.contains n = specHttpRetryable n := by
+  simp [OtlpTables.httpRetryable, specHttpRetryable, Bool.or_assoc]
+
+/-- otlpexporter `shouldRetry` = the spec's gRPC table, for every code, with and without RetryInfo -/
+theorem C15_grpc_table_total (c : Nat) (ri : Option Nat) : shouldRetry c ri = specGrpcRetryable c ri.isSome := by
+  simp [shouldRetry, specGrpcRetryable, OtlpTables.grpcRetryAlways, OtlpTables.grpcRetryIfInfo, Bool.or_assoc]
+
+/-- receiver `GetHTTPStatusCodeFromStatus` = the documented gRPC→HTTP mapping, for every code (default branch: 500) -/
+theorem C15_httpOf_total (c : Nat) : httpOf c = specHttpOf c := by
+  simp only [httpOf, OtlpTables.httpOfGrpc, OtlpTables.httpOfGrpcDefault, lookupD, specHttpOf]
+  repeat' split
+  all_goals first | rfl | omega
+
+/-- constants the composition rests on -/
+theorem C15_gen_shape :
+    OtlpTables.plainCode = 14 ∧ OtlpTables.permanentCode = 13 ∧
+    OtlpTables.successLo = 200 ∧ OtlpTables.successHi = 299 ∧
+    OtlpTables.expThrottleStatuses = [429, 503] ∧ OtlpTables.recvThrottleStatuses = [429, 503] ∧
+    OtlpTables.retryAfterRoundsUp = true ∧ OtlpTables.errorHandlerKeepsStatus = true ∧
+    OtlpTables.methodStatus = 405 ∧ OtlpTables.contentTypeStatus = 415 ∧
+    OtlpTables.unmarshalStatus = 400 ∧ OtlpTables.readBodyStatus = 400 := by decide
+
+/-- the sender's inverse table sends each retryable HTTP status back to a retryable gRPC code and each
+non-retryable one to a non-retryable code: the error the exporter *returns* means what the wire said -/
+theorem C15_inverse_table_consistent (n : Nat) :
+    specGrpcRetryable (lookupD OtlpTables.grpcOfHttp OtlpTables.grpcOfHttpDefault n) true = specHttpRetryable n := by
+  simp only [OtlpTables.grpcOfHttp, OtlpTables.grpcOfHttpDefault, lookupD, specHttpRetryable, specGrpcRetryable]
+  repeat' split
+  all_goals simp_all
+
+/-! ## the sender classifies what it receives exactly as the specification prescribes -/
+
+theorem C15_exporter_matches_spec_grpc (w : WireGrpc) : expGrpc w = specGrpc w := by
+  unfold expGrpc specGrpc
+  rw [C15_grpc_table_total]
+  by_cases h0 : w.code = 0
+  · simp [h0]
+  · simp only [h0, if_false]
+    cases hr : specGrpcRetryable w.code w.retry.isSome
+    · simp
+    · cases w.retry with
+      | none => simp
+      | some d => by_cases hd : d = 0 <;> simp [hd]
+
+theorem C15_exporter_matches_spec_http (w : WireHttp) : expHttp w = specHttp w := by
+  have hs := C15_gen_shape
+  unfold expHttp specHttp
+  rw [C15_http_table_total, hs.2.2.1, hs.2.2.2.1, hs.2.2.2.2.1]
+  by_cases h2 : 200 ≤ w.status ∧ w.status ≤ 299
+  · simp [h2]
+  · simp only [h2, if_false]
+    cases hr : specHttpRetryable w.status
+    · simp
+    · simp only [Bool.not_true, Bool.false_eq_true, if_false]
+      by_cases ht : w.status = 429 ∨ w.status = 503
+      · have : [429, 503].contains w.status = true := by
+          cases ht with
+          | inl h => simp [h]
+          | inr h => simp [h]
+        simp [this, ht]
+      · have : [429, 503].contains w.status = false := by
+          simp only [not_or] at ht
+          simp [ht.1, ht.2]
+        simp [this, ht]
+
+/-! ## what the receiver puts on the wire -/
+
+/-- **Status mapping.** An explicit status is reported with that status (gRPC: same code and RetryInfo;
+HTTP: Status body with that code under the mapped HTTP status); any other permanent error with a
+non-retryable status, any other error with a retryable one — on both transports. -/
+theorem C15_status_mapping :
+    (∀ c ri, recvGrpc (.status c ri) = ⟨c, ri⟩) ∧
+    (∀ c ri, (recvHttp (.status c ri)).bodyCode = c ∧ (recvHttp (.status c ri)).status = specHttpOf c) ∧
+    specGrpcRetryable (recvGrpc (.plain true)).code (recvGrpc (.plain true)).retry.isSome = false ∧
+    specHttpRetryable (recvHttp (.plain true)).status = false ∧
+    specGrpcRetryable (recvGrpc (.plain false)).code (recvGrpc (.plain false)).retry.isSome = true ∧
+    specHttpRetryable (recvHttp (.plain false)).status = true := by
+  refine ⟨fun c ri => rfl, fun c ri => ⟨rfl, ?_⟩, by decide, by decide, by decide, by decide⟩
+  show httpOf c = specHttpOf c
+  exact C15_httpOf_total c
+
+theorem specHttpOf_not_success (c : Nat) : ¬ (200 ≤ specHttpOf c ∧ specHttpOf c ≤ 299) := by
+  unfold specHttpOf
+  repeat' split
+  all_goals omega
+
+/-- **Success iff accepted**, gRPC: the sender sees success exactly when the consumer returned nil -/
+theorem C15_success_iff_grpc (o : Outcome) (h : o.wf) : expGrpc (recvGrpc o) = .success ↔ o = .ok := by
+  rw [C15_exporter_matches_spec_grpc]
+  cases o with
+  | ok => simp [recvGrpc, recvStatus, specGrpc]
+  | plain p => cases p <;> decide
+  | status c ri =>
+    have hc : c ≠ 0 := h
+    simp only [recvGrpc, recvStatus, specGrpc, hc, if_false]
+    constructor
+    · intro hv
+      cases hr : specGrpcRetryable c ri.isSome <;> simp [hr] at hv
+      cases ri with
+      | none => simp at hv
+      | some d => by_cases hd : d = 0 <;> simp [hd] at hv
+    · intro hv; cases hv
+
+/-- **Success iff accepted**, HTTP -/
+theorem C15_success_iff_http (o : Outcome) : expHttp (recvHttp o) = .success ↔ o = .ok := by
+  rw [C15_exporter_matches_spec_http]
+  cases o with
+  | ok => simp [recvHttp, recvStatus, specHttp]
+  | plain p => cases p <;> decide
+  | status c ri =>
+    have hns := specHttpOf_not_success c
+    simp only [recvHttp, recvStatus, specHttp, C15_httpOf_total, hns, if_false]
+    constructor
+    · intro hv
+      cases hr : specHttpRetryable (specHttpOf c)
+      · simp [hr] at hv
+      · simp only [hr, Bool.not_true, Bool.false_eq_true, if_false] at hv
+        split at hv
+        · split at hv <;> cases hv
+        · cases hv
+    · intro hv; cases hv
+
+/-! ## the hop commutes: sender verdict = meaning of the consumer's outcome -/
+
+/-- what a consumer outcome means to a gRPC sender, by the specification's gRPC table -/
+def meaningGrpc : Outcome → Verdict
+  | .ok => .success
+  | .plain true => .permanent
+  | .plain false => .retryable
+  | .status c ri => specGrpc ⟨c, ri⟩
+
+/-- what it means to an HTTP sender: the gRPC code's class, where RESOURCE_EXHAUSTED is always retryable
+(HTTP 429 is retryable unconditionally in the spec's HTTP table), and a requested delay is carried in whole
+seconds, rounded up -/
+def meaningHttp : Outcome → Verdict
+  | .ok => .success
+  | .plain true => .permanent
+  | .plain false => .retryable
+  | .status c ri =>
+    if specGrpcRetryable c true then
+      match ri with
+      | some d => .throttle ((d + (nsPerSec - 1)) / nsPerSec * nsPerSec)
+      | none => .retryable
+    else .permanent
+
+theorem C15_commutes_grpc (o : Outcome) (h : o.wf) : expGrpc (recvGrpc o) = meaningGrpc o := by
+  rw [C15_exporter_matches_spec_grpc]
+  cases o with
+  | ok => rfl
+  | plain p => cases p <;> decide
+  | status c ri => rfl
+
+theorem specHttpOf_class (c : Nat) :
+    (specGrpcRetryable c true = true → specHttpOf c = 429 ∨ specHttpOf c = 503) ∧
+    (specGrpcRetryable c true = false → specHttpRetryable (specHttpOf c) = false) := by
+  by_cases h1 : c = 1 ∨ c = 4 ∨ c = 10 ∨ c = 11 ∨ c = 14 ∨ c = 15
+  · have : specHttpOf c = 503 := by simp [specHttpOf, h1]
+    rw [this]
+    have ht : specGrpcRetryable c true = true := by
+      rcases h1 with h | h | h | h | h | h <;> simp [specGrpcRetryable, h]
+    exact ⟨fun _ => Or.inr rfl, fun hf => by rw [ht] at hf; cases hf⟩
+  · by_cases h8 : c = 8
+    · subst h8; decide
+    · have hf : specGrpcRetryable c true = false := by
+        simp only [not_or] at h1
+        simp [specGrpcRetryable, h1.1, h1.2.1, h1.2.2.1, h1.2.2.2.1, h1.2.2.2.2.1, h1.2.2.2.2.2, h8]
+      refine ⟨fun h => (by rw [hf] at h; cases h), fun _ => ?_⟩
+      simp only [specHttpOf, h1, h8, if_false]
+      repeat' split
+      all_goals decide
+
+theorem C15_commutes_http (o : Outcome) : expHttp (recvHttp o) = meaningHttp o := by
+  rw [C15_exporter_matches_spec_http]
+  have hs := C15_gen_shape
+  cases o with
+  | ok => rfl
+  | plain p => cases p <;> decide
+  | status c ri =>
+    have hns := specHttpOf_not_success c
+    have hcl := specHttpOf_class c
+    simp only [recvHttp, recvStatus, specHttp, meaningHttp, C15_httpOf_total, hns, if_false, hs.2.2.2.2.2.1]
+    cases hr : specGrpcRetryable c true
+    · simp [hcl.2 hr]
+    · have h49 := hcl.1 hr
+      have hre : specHttpRetryable (specHttpOf c) = true := by
+        cases h49 with
+        | inl h => simp [h, specHttpRetryable]
+        | inr h => simp [h, specHttpRetryable]
+      have hcon : [429, 503].contains (specHttpOf c) = true := by
+        cases h49 with
+        | inl h => simp [h]
+        | inr h => simp [h]
+      simp only [hre, Bool.not_true, Bool.false_eq_true, if_false, h49, if_true, hcon]
+      cases ri with
+      | none => rfl
+      | some d => simp [secondsOf, hs.2.2.2.2.2.2.1]
+
+/-- **Throttle delay, HTTP.** Whatever delay the consumer asked for, an HTTP sender that is told to throttle
+waits at least that long (whole-second `Retry-After`, rounded up). Does not build on a tree that truncates. -/
+theorem C15_throttle_delay_http (c d d' : Nat) (h : expHttp (recvHttp (.status c (some d))) = .throttle d') : d ≤ d' := by
+  rw [C15_commutes_http] at h
+  simp only [meaningHttp] at h
+  split at h
+  · simp only [Verdict.throttle.injEq] at h
+    subst h
+    simp only [nsPerSec]
+    omega
+  · cases h
+
+/-- **Throttle delay, gRPC.** RetryInfo travels as is: the sender waits exactly the requested delay. -/
+theorem C15_throttle_delay_grpc (c d d' : Nat) (h : expGrpc (recvGrpc (.status c (some d))) = .throttle d') : d' = d := by
+  rw [C15_exporter_matches_spec_grpc] at h
+  simp only [recvGrpc, recvStatus, specGrpc] at h
+  simp only [Option.isSome_some] at h
+  by_cases h0 : c = 0
+  · simp [h0] at h
+  · cases hr : specGrpcRetryable c true
+    · simp [h0, hr] at h
+    · by_cases hd : d = 0
+      · simp [h0, hr, hd] at h
+      · simp [h0, hr, hd] at h; exact h.symm
+
+/-- A requested non-zero delay on a retryable status is never silently dropped: the verdict is a throttle. -/
+theorem C15_requested_delay_honoured (c d : Nat) (hc : c ≠ 0) (hd : d ≠ 0) (hr : specGrpcRetryable c true = true) :
+    expGrpc (recvGrpc (.status c (some d))) = .throttle d ∧
+    ∃ d', expHttp (recvHttp (.status c (some d))) = .throttle d' ∧ d ≤ d' := by
+  constructor
+  · rw [C15_exporter_matches_spec_grpc]
+    simp [recvGrpc, recvStatus, specGrpc, hc, hd, hr]
+  · rw [C15_commutes_http]
+    simp only [meaningHttp, hr, if_true]
+    exact ⟨_, rfl, by simp only [nsPerSec]; omega⟩
+
+/-- Both transports agree on whether an outcome is retryable — except RESOURCE_EXHAUSTED without RetryInfo,
+which the spec's gRPC table makes permanent and its HTTP table (429) retryable. -/
+theorem C15_transports_agree (o : Outcome) (h : o.wf) (hx : o ≠ .status 8 none) :
+    (expGrpc (recvGrpc o)).isRetry = (expHttp (recvHttp o)).isRetry := by
+  rw [C15_commutes_grpc o h, C15_commutes_http]
+  cases o with
+  | ok => rfl
+  | plain p => cases p <;> rfl
+  | status c ri =>
+    have hc : c ≠ 0 := h
+    simp only [meaningGrpc, meaningHttp, specGrpc, hc, if_false]
+    cases ri with
+    | none =>
+      have h8 : c ≠ 8 := by intro h8; apply hx; rw [h8]
+      have : specGrpcRetryable c true = specGrpcRetryable c false := by
+        simp [specGrpcRetryable, h8]
+      simp only [Option.isSome_none, this]
+      cases specGrpcRetryable c false <;> simp [Verdict.isRetry]
+    | some d =>
+      simp only [Option.isSome_some]
+      cases specGrpcRetryable c true
+      · simp [Verdict.isRetry]
+      · by_cases hd : d = 0 <;> simp [hd, Verdict.isRetry]
+
+/-- the exception is real and goes the way the two spec tables say -/
+theorem C15_resource_exhausted_without_info :
+    expGrpc (recvGrpc (.status 8 none)) = .permanent ∧ expHttp (recvHttp (.status 8 none)) = .retryable := by decide
+
+/-! ## requests that must not reach the consumer -/
+
+/-- **Client errors, HTTP.** Unauthenticated, badly encoded, unknown path, wrong method, unsupported media
+type, undecodable body: a 4xx status, the consumer is not invoked, the sender will not retry. -/
+theorem C15_client_errors_http (r : HttpReq) (sink : Outcome)
+    (h : r.authOk = some false ∨ r.encodingOk = false ∨ r.pathKnown = false ∨ r.isPost = false ∨
+         r.ctype = .other ∨ r.bodyDecodes = false) :
+    400 ≤ (httpFront r sink).1.status ∧ (httpFront r sink).1.status ≤ 499 ∧ (httpFront r sink).2 = 0 ∧
+      expHttp (httpFront r sink).1 = .permanent := by
+  have hs := C15_gen_shape
+  have hk : ∀ ct st, errorHandlerStatus ct st = st := by
+    intro ct st; simp [errorHandlerStatus, hs.2.2.2.2.2.2.2.1]
+  unfold httpFront
+  by_cases h1 : r.authOk = some false
+  · simp only [h1, if_true, hk]; decide
+  · by_cases h2 : r.encodingOk = false
+    · simp only [h1, if_false, h2, Bool.not_false, if_true, hk]; decide
+    · by_cases h3 : r.pathKnown = false
+      · simp only [h1, h2, h3, if_false, Bool.not_false, if_true]
+        simp only [Bool.not_eq_false] at h2
+        simp only [h2, Bool.not_true, Bool.false_eq_true, if_false]; decide
+      · by_cases h4 : r.isPost = false
+        · simp only [Bool.not_eq_false] at h2 h3
+          simp only [h1, h2, h3, h4, Bool.not_true, Bool.not_false, Bool.false_eq_true, if_false, if_true]; decide
+        · by_cases h5 : r.ctype = .other
+          · simp only [Bool.not_eq_false] at h2 h3 h4
+            simp only [h1, h2, h3, h4, h5, Bool.not_true, Bool.false_eq_true, if_false, if_true]; decide
+          · have h6 : r.bodyDecodes = false := by
+              rcases h with h | h | h | h | h | h
+              · exact absurd h h1
+              · exact absurd h h2
+              · exact absurd h h3
+              · exact absurd h h4
+              · exact absurd h h5
+              · exact h
+            simp only [Bool.not_eq_false] at h2 h3 h4
+            simp only [h1, h2, h3, h4, h5, h6, Bool.not_true, Bool.not_false, Bool.false_eq_true, if_false, if_true]; decide
+
+/-- **Client errors, gRPC** (partial: an undecodable frame is answered by grpc-go itself with `Internal`,
+which is non-retryable but not a "client error" code; an unauthenticated call gets `Unauthenticated`). -/
+theorem C15_client_errors_grpc_partial (r : GrpcReq) (sink : Outcome)
+    (h : r.authOk = some false ∨ r.bodyDecodes = false) :
+    (grpcFront r sink).1.code ≠ 0 ∧ (grpcFront r sink).2 = 0 ∧ expGrpc (grpcFront r sink).1 = .permanent ∧
+      (r.bodyDecodes = true → (grpcFront r sink).1.code = 16) := by
+  unfold grpcFront
+  by_cases h1 : r.bodyDecodes = false
+  · simp only [h1, Bool.not_false, if_true]; decide
+  · have h2 : r.authOk = some false := by
+      cases h with
+      | inl h => exact h
+      | inr h => exact absurd h h1
+    simp only [Bool.not_eq_false] at h1
+    simp only [h1, h2, Bool.not_true, Bool.false_eq_true, if_false, if_true]; decide
+
+/-- **Empty acknowledgement.** A well-formed request with no items is acknowledged as success without
+invoking the consumer, whatever the consumer would have answered — on both transports. -/
+theorem C15_empty_ack (sink : Outcome) (auth : Option Bool) (ct : CType) (ha : auth ≠ some false) (hct : ct ≠ .other) :
+    httpFront ⟨auth, true, true, true, ct, true, 0⟩ sink = (⟨200, none, 0⟩, 0) ∧
+    expHttp (httpFront ⟨auth, true, true, true, ct, true, 0⟩ sink).1 = .success ∧
+    grpcFront ⟨auth, true, 0⟩ sink = (⟨0, none⟩, 0) ∧
+    expGrpc (grpcFront ⟨auth, true, 0⟩ sink).1 = .success := by
+  have e1 : httpFront ⟨auth, true, true, true, ct, true, 0⟩ sink = (⟨200, none, 0⟩, 0) := by
+    simp [httpFront, ha, hct, receive, recvHttp, recvStatus]
+  have e2 : grpcFront ⟨auth, true, 0⟩ sink = (⟨0, none⟩, 0) := by
+    simp [grpcFront, ha, receive, recvGrpc, recvStatus]
+  refine ⟨e1, ?_, e2, ?_⟩
+  · rw [e1]; decide
+  · rw [e2]; decide
+
+/-- A well-formed request with items invokes the consumer exactly once and reports its outcome. -/
+theorem C15_consumer_once (sink : Outcome) (auth : Option Bool) (ct : CType) (n : Nat)
+    (ha : auth ≠ some false) (hct : ct ≠ .other) (hn : n ≠ 0) :
+    httpFront ⟨auth, true, true, true, ct, true, n⟩ sink = (recvHttp sink, 1) ∧
+    grpcFront ⟨auth, true, n⟩ sink = (recvGrpc sink, 1) := by
+  constructor
+  · simp [httpFront, ha, hct, receive, hn]
+  · simp [grpcFront, ha, receive, hn]
+
+/-! ## payload -/
+
+/-- an encoding (protobuf / JSON marshalling of an export request) and a compression, each with its law -/
+structure Transport' (α β : Type) where
+  encode : α → β
+  decode : β → Option α
+  compress : β → β
+  decompress : β → Option β
+  enc_law : ∀ v, decode (encode v) = some v
+  comp_law : ∀ b, decompress (compress b) = some b
+
+/-- **Payload** (partial: the marshalling law is C08's theorem and the compression law C16's hypothesis; here
+they are composed; the real hop is checked by exact byte comparison at the sink on every run). -/
+theorem C15_payload_partial {α β : Type} (t : Transport' α β) (v : α) :
+    (t.decompress (t.compress (t.encode v))).bind t.decode = some v := by
+  rw [t.comp_law, Option.bind_some, t.enc_law]
+
+/-! ## the search oracle -/
+
+theorem firstFail_none {l : List (Bool × String)} (h : firstFail l = none) : ∀ p ∈ l, p.1 = false := by
+  induction l with
+  | nil => intro p hp; cases hp
+  | cons q r ih =>
+    obtain ⟨c, s⟩ := q
+    cases c with
+    | true => simp [firstFail] at h
+    | false =>
+      simp only [firstFail, Bool.false_eq_true, if_false] at h
+      intro p hp
+      cases hp with
+      | head => rfl
+      | tail _ hp => exact ih h p hp
+
+/-- what `hopCheck` guarantees when it accepts a hop: the property's clauses, stated without any table of the code -/
+def HopOk (x : Hop) : Prop :=
+  if x.authFail then x.calls = 0 ∧ x.verdict = .permanent
+  else
+    x.calls = (if x.items = 0 then 0 else 1) ∧ x.payloadEq = true ∧
+    (x.verdict = .success ↔ x.effective = .ok) ∧
+    (∀ c ri, x.effective = .status c ri → x.wireCode = c) ∧
+    x.verdict = x.want ∧
+    (∀ c d d', x.effective = .status c (some d) → x.verdict = .throttle d' → d ≤ d')
+
+theorem C15_check_sound (x : Hop) (h : hopCheck x = none) : HopOk x := by
+  have hall := firstFail_none h
+  unfold HopOk
+  by_cases ha : x.authFail = true
+  · simp only [ha, if_true]
+    simp only [hopClauses, ha, if_true] at hall
+    have h1 := hall (_, _) (List.mem_cons_self ..)
+    have h3 := hall (_, _) (List.mem_cons_of_mem _ (List.mem_cons_of_mem _ (List.mem_cons_self ..)))
+    exact ⟨by simpa using h1, by simpa using h3⟩
+  · simp only [ha]
+    simp only [hopClauses, ha] at hall
+    simp only [Bool.false_eq_true, if_false, List.mem_cons, List.mem_nil_iff, or_false, forall_eq_or_imp, forall_eq] at hall
+    obtain ⟨h1, h2, h3, h4, _, _, _, _, h9, h10, _⟩ := hall
+    refine ⟨by simpa using h1, by simpa using h2, ?_, ?_, by simpa using h9, ?_⟩
+    · simp only [bne_eq_false_iff_eq, decide_eq_decide] at h3
+      exact h3
+    · intro c ri he
+      rw [he] at h4
+      simpa using h4
+    · intro c d d' he hv
+      rw [he, hv] at h10
+      simp only [decide_eq_false_iff_not, Nat.not_lt] at h10
+      exact h10
+
+/-! ## non-vacuity -/
+
+example : expHttp (recvHttp (.status 14 (some 500000000))) = .throttle 1000000000 := by decide
+example : expGrpc (recvGrpc (.status 14 (some 500000000))) = .throttle 500000000 := by decide
+example : expHttp (recvHttp (.status 3 (some 500000000))) = .permanent := by decide
+example : expHttp (recvHttp (.status 99 none)) = .permanent ∧ (recvHttp (.status 99 none)).status = 500 := by decide
+example : (httpFront ⟨some false, true, true, true, .other, true, 3⟩ (.plain false)).1.status = 401 := by decide
+example : hopCheck ⟨.http, 2, .status 14 (some 500000000), 14, 503, some 0, .throttle 0, 1, true, false⟩
+    = some "C15/http/retry-after-truncated" := by decide
+example : hopCheck ⟨.http, 2, .status 14 (some 500000000), 14, 503, some 1, .throttle 1000000000, 1, true, false⟩ = none := by decide
+example : hopCheck ⟨.grpc, 1, .plain true, 14, 0, none, .retryable, 1, true, false⟩
+    = some "C15/grpc/permanent-reported-retryable" := by decide
+
 end OtelVerif.C15
